@@ -78,6 +78,36 @@ NEEDS = {
  'C16-2A': ('disconnect() calls shutdown(SHUT_WR) instead of SHUT_RDWR', 'the networking thread blocked inside a frame body when disconnect() arrives'),
  'C16-2B': ('fresh-thread branch of _start_network_thread placed before the reuse-pending-successor branch', 'connect, reconnect from a listener, user disconnect, user status() in the hand-over window'),
  'C16-2C': ('except socket.error around shutdown() narrowed to ConnectionError', 'a refused TCP connect, then disconnect()'),
+ 'C02-2A': ('VarInt.read became a staticmethod using VarInt.max_bytes', 'a VarLong of 2**42 or more (7+ bytes)'),
+ 'C02-2B': ('VarInt.send fills a module-level scratch bytearray', 'two threads inside VarInt.send with a switch between the first buffer write and the final copy'),
+ 'C02-2C': ('String.send length guard applied to the UTF-8 byte count', 'a string of <= 32767 characters whose UTF-8 form exceeds 32767 bytes'),
+ 'C03-2A': ('VarInt.send adds 2**32 to negatives instead of raising', 'a negative integer below -2**32 (encoder never terminates)'),
+ 'C03-2B': ('32-bit range check added to the decoder VarLong inherits', 'a VarLong of 2**32 or more'),
+ 'C03-2C': ('VarInt.size memoised per bit_length // 7 bucket', 'two queries in one bucket from either side of a 7k/7k+1 bit-length boundary, in that order'),
+ 'C04-2A': ('write_packet keeps a context the packet already has', 'one packet object written to two connections either side of the 1.14 layout switch'),
+ 'C04-2B': ('Position.read_with_context rewritten with 22-bit constants for z in the new-layout branch', 'protocol >= 443 and |z| >= 2**21'),
+ 'C04-2C': ('ConnectionContext.protocol_later_eq memoised, cache cleared by a protocol_version setter', 'a thread missing the cache while another assigns a version across the layout switch'),
+ 'C06-2A': ('PROTOCOL_VERSION_INDICES assigned for every record, not only first occurrences', 'protocol 754 (the one non-adjacent duplicate number)'),
+ 'C06-2B': ('protocol_later_eq memo is a class attribute shared by all contexts', 'two live contexts of different versions used alternately with no construction in between'),
+ 'C06-2C': ('one id chain compares protocol numbers numerically', 'one of the six supported PRE-flagged versions'),
+ 'C07-2A': ('Packet.id / definition memoised per context object', 'a context used at one version and then re-assigned to another (negotiation, reconnect)'),
+ 'C07-2B': ('String.read rejects a length prefix above 32767', 'a legal string of <= 32767 characters whose UTF-8 form exceeds 32767 bytes'),
+ 'C07-2C': ('VarInt.read returns signed values, send still rejects negatives', 'protocol 47-338 and a keep-alive id with bit 31 set'),
+ 'C08-2A': ('index lookup written "INDICES.get(pv) or len(INDICES)"', 'a comparison involving protocol number 0 (index 0)'),
+ 'C08-2B': ('SUPPORTED_MINECRAFT_VERSIONS not cleared by initglobals(True)', 'a supported record inserted before the end, or un-supported, then a rebuild'),
+ 'C08-2C': ('single-pass rebuild fills the release tables beside, not inside, the supported test', 'run-time extension with an unsupported release-named version, then initglobals(True)'),
+ 'C17-2A': ("hand-written two's complement tests the carry after the increment", 'a negative digest whose last byte is 00 or 01'),
+ 'C17-2B': ('Connection memoises the session hash per (server id, public key)', 'a second login on the same Connection object to the same server'),
+ 'C17-2C': ('sign test written b[0] > 0x80', 'a digest whose first byte is exactly 0x80'),
+ 'C18-2A': ('EncryptedFileObjectWrapper.read tops up short reads without decrypting the continuation', 'encryption on and a body arriving in more than one segment'),
+ 'C18-2B': ('connect() keeps an existing LoginReactor, which caches its secret', 'a login that ends in the login state after the encryption request, then another login'),
+ 'C18-2C': ('file_object lookup hoisted out of the read loop in _run', "the server's first encrypted packet already readable when the loop comes round after the encryption request"),
+ 'C19-2A': ('join() guards on access token and profile instead of authenticated', 'a token with profile and access token but no username (restored token after refresh)'),
+ 'C19-2B': ('refresh() keeps the client token it sent', 'a refresh reply whose clientToken differs from the one posted'),
+ 'C19-2C': ('error-object test no longer checks the body is a JSON object', 'an error reply whose body is null, a number, a string or an array'),
+ 'C20-2A': ('MutableRecord._all_slots cached through an inherited class attribute', 'a parent record class compared/printed before a subclass with extra slots is first used'),
+ 'C20-2B': ('MapPacket.apply_to_map copies len(pixels) // width whole rows', 'a pixel array that is not a whole number of rows'),
+ 'C20-2C': ('angles wrapped only on the relative path', 'an absolute yaw or pitch outside [0, 360)'),
 }
 
 
